@@ -498,13 +498,65 @@ def _worker(args):
     return verify_unit(*args[0], **args[1])
 
 
-def verify_many(jobs, nproc=12):
-    """jobs: list of ((qual, case, registry_factory), kwargs).  Fork-based pool (z3 objects never cross)."""
+def _child(conn, job):
+    try:
+        res = _worker(job)
+    except BaseException as e:          # never let a unit kill the run silently
+        res = dict(unit='%s[%s]' % (job[0][0], job[0][1]), function=job[0][0], case=job[0][1], obligations=[], status='crash',
+                   error='%s: %s' % (type(e).__name__, e), paths=0, sha=None, file=None, vacuity={}, seconds=0.0)
+    try:
+        conn.send(res)
+    finally:
+        conn.close()
+
+
+def verify_many(jobs, nproc=12, unit_timeout_s=1500):
+    """One fresh forked process per unit (sort/constant names and hence solver behaviour do not depend on what ran
+    before), at most nproc at a time; a unit that dies or exceeds the time limit is reported as crashed/undecided
+    instead of hanging the run."""
     import multiprocessing as mp
     if len(jobs) <= 1 or nproc <= 1:
         return [_worker(j) for j in jobs]
     ctx = mp.get_context('fork')
-    # one fresh process per unit: sort/constant names (and hence solver behaviour) do not depend on which
-    # units happened to run earlier in the same worker
-    with ctx.Pool(min(nproc, len(jobs)), maxtasksperchild=1) as pool:
-        return pool.map(_worker, jobs, chunksize=1)
+    results = [None] * len(jobs)
+    pending = list(enumerate(jobs))
+    running = {}
+    while pending or running:
+        while pending and len(running) < nproc:
+            idx, job = pending.pop(0)
+            parent, child = ctx.Pipe(duplex=False)
+            p = ctx.Process(target=_child, args=(child, job))
+            p.start()
+            child.close()
+            running[idx] = (p, parent, time.time(), job)
+        done = []
+        for idx, (p, conn, t0, job) in running.items():
+            got = None
+            if conn.poll(0.02):
+                try:
+                    got = conn.recv()
+                except EOFError:
+                    got = None
+                if got is None:
+                    got = dict(status='crash', error='worker process ended without a result (exit code %s)' % p.exitcode)
+            elif not p.is_alive():
+                got = dict(status='crash', error='worker process died (exit code %s)' % p.exitcode)
+            elif time.time() - t0 > unit_timeout_s:
+                p.terminate()
+                got = dict(status='undecided', error='unit exceeded the time limit of %d s' % unit_timeout_s)
+            if got is not None:
+                base = dict(unit='%s[%s]' % (job[0][0], job[0][1]), function=job[0][0], case=job[0][1], obligations=[],
+                            paths=0, sha=None, file=None, vacuity={}, seconds=round(time.time() - t0, 1))
+                base.update(got)
+                results[idx] = base
+                done.append(idx)
+        for idx in done:
+            p, conn, _, _ = running.pop(idx)
+            try:
+                conn.close()
+            except Exception:
+                pass
+            p.join(timeout=5)
+        if not done:
+            time.sleep(0.05)
+    return results
